@@ -7,12 +7,13 @@
 #define FCPPT_IO_READ_HPP_INCLUDED
 
 #include <fcppt/cast/size.hpp>
-#include <fcppt/cast/to_char_ptr.hpp>
 #include <fcppt/cast/to_signed.hpp>
-#include <fcppt/endianness/convert.hpp>
 #include <fcppt/optional/object_impl.hpp>
 #include <fcppt/config/external_begin.hpp>
+#include <algorithm>
+#include <array>
 #include <bit>
+#include <cstring>
 #include <ios>
 #include <istream>
 #include <type_traits>
@@ -47,13 +48,25 @@ fcppt::optional::object<Type> read(std::istream &_stream, std::endian const _for
 
   using result_type = fcppt::optional::object<Type>;
 
+  // See io::write for why the bytes are not reordered in an object of type Type.
+  std::array<char, sizeof(Type)> bytes{};
+
+  if (!_stream.read(
+          bytes.data(), fcppt::cast::size<std::streamsize>(fcppt::cast::to_signed(sizeof(Type)))))
+  {
+    return result_type();
+  }
+
+  if (_format != std::endian::native)
+  {
+    std::reverse(bytes.begin(), bytes.end());
+  }
+
   Type result;
 
-  return _stream.read(
-             fcppt::cast::to_char_ptr<char *>(&result),
-             fcppt::cast::size<std::streamsize>(fcppt::cast::to_signed(sizeof(Type))))
-             ? result_type(fcppt::endianness::convert(result, _format))
-             : result_type();
+  std::memcpy(&result, bytes.data(), sizeof(Type));
+
+  return result_type(result);
 }
 
 }
